@@ -7,7 +7,7 @@ import z3
 from sx import core as S, env as E, npshim
 
 PROPERTY = "C19"
-REGIONS = ["points-dtype-unsigned", "points-dtype-signed-narrow", "edited-in-place-between-calls", "ndim1", "ndim2", "ndim3", "symbolic-matrix", "concrete-matrix", "satisfied-true", "satisfied-false"]
+REGIONS = ["no-rows", "points-dtype-unsigned", "points-dtype-signed-narrow", "edited-in-place-between-calls", "ndim1", "ndim2", "ndim3", "symbolic-matrix", "concrete-matrix", "satisfied-true", "satisfied-false"]
 BOUNDS = ("rows<=3, columns<=3, points per group<=3, groups<=2; fully symbolic matrix entries, right-hand sides and coordinates with |.|<=20 "
           "for shapes up to 2x2 with <=2 points (products are symbolic x symbolic: QF_NIA, but oracle and code share the same product terms); "
           "larger shapes use concrete matrices over {-2..2} with symbolic b and symbolic points")
@@ -54,6 +54,10 @@ def instantiations(tier, seed):
         for fn in FUNS:
             for nd in (1, 2):
                 out.append({"rows": r, "cols": c, "ndim": nd, "npts": 1 if nd == 1 else 2, "ngroups": 1, "fn": fn, "A": None, "edit": True})
+    # a polyhedron without rows (what remains after every row was reduced away): every point satisfies it
+    for nd in (1, 2, 3):
+        for fn in FUNS:
+            out.append({"rows": 0, "cols": 2, "ndim": nd, "npts": 1 if nd == 1 else 2, "ngroups": 2 if nd == 3 else 1, "fn": fn, "A": None})
     for mu in ("all_as_any", "ge_as_gt"):
         out.append({"kind": "mutant", "mutant": mu, "rows": 2, "cols": 2, "ndim": 2, "npts": 2, "ngroups": 1, "fn": "ineqs_satisfied", "A": None})
     return out
@@ -73,7 +77,7 @@ def run_inst(spec, run):
             b = [ctx.int("b%d" % i, -20, 20) for i in range(r)]
             plo, phi = (0, 20) if str(spec.get("pdtype", "")).startswith("u") else (-20, 20)
             pts = [[[ctx.int("p%d_%d_%d" % (g, k, j), plo, phi) for j in range(c)] for k in range(npts)] for g in range(ng)]
-            M = npshim.obj_matrix([[b[i]] + A[i] for i in range(r)])
+            M = npshim.obj_matrix([[b[i]] + A[i] for i in range(r)]) if r else np.empty((0, c + 1), dtype=object)
             P = ns.pnd.ge_polyhedron(M)
             if nd == 1:
                 arr = npshim.obj_vector(pts[0][0])
@@ -114,6 +118,8 @@ def run_inst(spec, run):
                 run.obligation(ctx, "raises", True, conc, extra=rs["err"])
                 return
             run.region("ndim%d" % nd)
+            if r == 0:
+                run.region("no-rows")
             if spec.get("pdtype"):
                 run.region("points-dtype-" + ("unsigned" if spec["pdtype"].startswith("u") else "signed-narrow"))
             if spec.get("edit"):
